@@ -635,9 +635,8 @@ func (e *Engine) doIndexAddr(st *State, in *ssa.IndexAddr) {
 			e.setReg(st, in, term(e.mkERef(st, et, app("sarr", x.T), idx), SRef, in.Type()))
 			return
 		}
-		if isArray(et) {
-			panic(unsupported("slice of arrays"))
-		}
+		// (elements of array type are values of sort (Array Int T): whole loads and stores work, indexing into an
+		// element through its address is refused further down as "indexaddr base kind")
 		h := e.d.ElemHeapT(et)
 		e.setReg(st, in, Val{K: KElem, Heap: h, Base: app("sarr", x.T), Idx: idx, Typ: in.Type()})
 	case *types.Pointer:
